@@ -1033,6 +1033,11 @@ func exec(t *testing.T, w WL, cfg simrt.Config) simh.Outcome {
 		o.Counters["full_position_sweeps"]++
 	}
 	for i, mu := range muts {
+		simh.Tick()
+		if w.Sweep != "" && simh.PastDeadline() {
+			o.Counters["sweeps_cut_short_by_budget"]++
+			break
+		}
 		c, d := a.run(mu)
 		if c != "" {
 			o.Class, o.Detail = c, d
